@@ -381,6 +381,9 @@ func Select(hasDefault bool, cases ...SelCase) int {
 		}
 	}
 	if len(ready) == 0 {
+		// the default clause was taken: a polling loop; its next scheduling
+		// point lets the others run
+		t.stepAsideNext = true
 		return -1
 	}
 	if len(ready) == 1 {
@@ -495,6 +498,7 @@ func (m *Mutex) TryLock() bool {
 	t.pend = op{kind: OpYield, obj: m.ord}
 	s.yield(t)
 	if m.held {
+		t.stepAsideNext = true
 		return false
 	}
 	m.held = true
@@ -668,8 +672,8 @@ func (o *Once) Do(f func()) {
 	o.m.Lock()
 	if !o.done {
 		defer o.m.Unlock()
+		defer func() { o.done = true }() // like sync.Once: done even if f panics
 		f()
-		o.done = true
 		return
 	}
 	o.m.Unlock()
